@@ -66,7 +66,7 @@ def setup(cx, it, H, valid=True, agg_may_raise=False):
 
 def backward_check(H):
     def body(cx):
-        it = H.interp(cx, loop_specs=A.LOOPS, overrides=A.OVERRIDES)
+        it = H.interp(cx, loop_specs=A.LOOPS, overrides=A.SUMMARIES)
         heap, T, L, chunk, rg, agg, offT = setup(cx, it, H)
         has0, val0, stor0 = heap.snapshot()
         kind, out = call_catch(lambda: it.call(H.repo.get(f"{AJ}.backward.backward"), [T, agg, L, rg, chunk]))
